@@ -127,4 +127,10 @@ CHECKS = {
              "schema (enums included) has its inferred alias; closedness of type references is tied per case by resolver oracles on the real files.",
         design_ref="DESIGN.md section 7.C02", note="Trusted: Lean kernel; the hand-written analysis + generation model (tied per case: whole analysis and all four file texts modulo whitespace); syn / walkdir / tera / proc_macro2 modelled; exclusion classes stated on the input.",
         technique="Lean 4 theorems on the project model + resolver oracles on the real files"),
+    "C01": dict(
+        text="Proof that every hole filler is of its syntactic category for all inputs (string literals escape/lex round trip over all Unicode; function, type and listener identifiers consist of identifier characters), "
+             "with the skeleton decided by a Lean recogniser of the emitted TypeScript subset run on every real file of every generated project (both modes), and the file texts tied to the model modulo whitespace.",
+        design_ref="DESIGN.md section 7.C01, Appendix H",
+        note="Trusted: Lean kernel; the recogniser as definition of syntactic validity (no tsc offline); template text transcribed by hand and compared per case. Partial: skeleton validity is checked, not proved.",
+        technique="Lean 4 theorems on hole fillers + Lean recogniser on real output + whole-pipeline differential correspondence"),
 }
